@@ -81,6 +81,8 @@ Definition upc_ok (t : tid) (l : local) : Prop :=
   | PRecvAbsorb CO _, [] | PRecvCS CO _, [] | PRecvGot CO _ _, [] | PRecvNone CO _, [] | PRecvPark CO _, [] => t = 0
   | PStartRead, [] | PStartSpawn _, [] | PStartSpawned, [] | PStartCheck, [] | PStartSig _, [] | PShutdown _, [] | PGetSock, [] => t = 0
   | PJoinTest, [] | PJoinWait, [] | PJoinTest, [KDiscard] | PJoinWait, [KDiscard] => t = 0
+  | PUser UPing, [] => True
+  | PUser _, [] => t = 0
   | _, _ => False
   end.
 
@@ -88,7 +90,7 @@ Definition ipc_ok (l : local) : Prop :=
   match l_pc l, l_k l with
   | PIEntry, [] | PIStartupCS, [] | PIAfterStartup, [] | PILoop, [] | PIEvLoop, [] | PIEvWait, [] | PIEvPoll, [] | PIExit, [] => True
   | PRecvAbsorb CI _, [KLoop] | PRecvCS CI _, [KLoop] | PRecvGot CI _ _, [KLoop] | PRecvNone CI _, [KLoop] | PRecvPark CI _, [KLoop] => True
-  | PSendCS CO _, [KReplies _ _] | PSendSig CO _, [KReplies _ _] => True
+  | PSendCS _ _, [KReplies _ _] | PSendSig _ _, [KReplies _ _] => True
   | _, _ => False
   end.
 
@@ -106,11 +108,20 @@ Record wf (m e : bool) (s : sys) : Prop := mkWf {
   wf_start_idle : forall n, l_pc (s_l s 0) = PStartSpawn n -> g_running (s_g s) = false
 }.
 
+(* normalises goals about the result of a wake-up with refreshed socket-set flags / of a user-socket operation: those
+   touch nothing but g_usr *)
+Ltac usr_norm :=
+  unfold park_flags in *;
+  repeat match goal with
+  | |- context [match ?x with CI => _ | CO => _ end] => destruct x
+  | |- context [if u_reg ?u then _ else _] => destruct (u_reg u) eqn:?
+  end; simpl in *.
+
 Section Wf.
 Variable early : bool.
 Variable absorb_n : nat.
 Variable no_limit : N.
-Variable react : nat -> list msg * bool.
+Variable react : nat -> list (chanid * msg) * bool.
 Variable ok : label -> bool.
 Variables smode emode : bool.
 
@@ -130,7 +141,7 @@ Proof. reflexivity. Qed.
 
 Lemma next_reply_ipc : forall ev rs q p k' e', next_reply ev rs q [] = (p, k', e') -> ipc_ok (mkL p k').
 Proof.
-  intros ev rs q p k' e' H. unfold next_reply in H. destruct rs.
+  intros ev rs q p k' e' H. unfold next_reply in H. destruct rs as [|[c m] rest].
   - inversion H; subst. destruct q; [|destruct ev]; exact Coq.Init.Logic.I.
   - inversion H; subst. exact Coq.Init.Logic.I.
 Qed.
@@ -139,7 +150,7 @@ Lemma ret_internal : forall ev r k p k' e', (k = [KLoop] \/ exists rs q, k = [KR
   ret react ev r k = (p, k', e') -> ipc_ok (mkL p k').
 Proof.
   intros ev r k p k' e' [Hk | [rs [q Hk]]] H; subst; simpl in H.
-  - unfold dispatch in H. destruct r as [ | [x|] n | | | | ]; try (inversion H; subst; exact Coq.Init.Logic.I).
+  - unfold dispatch in H. destruct r as [ | [x|] n | | | | | | ]; try (inversion H; subst; exact Coq.Init.Logic.I).
     + destruct (next_reply ev (fst (react x)) (snd (react x)) []) as [[p0 k0] e0] eqn:Hn. inversion H; subst.
       eapply next_reply_ipc; eauto.
     + inversion H; subst. destruct ev; exact Coq.Init.Logic.I.
@@ -153,12 +164,33 @@ Ltac inv H := inversion H; subst; clear H.
 Definition enq (x : chan) (m : msg) : chan := mkCh (c_q x ++ [m]) (c_sig x) (c_wc x) (c_sent x ++ [m]) (c_rcvd x).
 Definition deq (x : chan) (m : msg) (r : list msg) : chan := mkCh r (c_sig x) (c_wc x) (c_sent x) (c_rcvd x ++ [m]).
 Definition spawned (g : gst) : gst :=
-  mkG (g_sockets g) (g_evd g) (g_alloc g) true (g_iopen g) (g_ci g) (g_co g) ILive (mkL PIEntry []) (S (g_gen g)).
+  mkG (g_sockets g) (g_evd g) (g_alloc g) true (g_iopen g) (g_ci g) (g_co g) ILive (mkL PIEntry []) (S (g_gen g)) (g_usr g).
 Definition joined (g : gst) : gst :=
-  mkG (g_sockets g) (g_evd g) (g_alloc g) false (g_iopen g) (g_ci g) (g_co g) INone (g_il g) (g_gen g).
+  mkG (g_sockets g) (g_evd g) (g_alloc g) false (g_iopen g) (g_ci g) (g_co g) INone (g_il g) (g_gen g) (g_usr g).
 Definition exited (g : gst) : gst :=
   mkG (g_sockets g) (g_evd g) (g_alloc g) (g_running g) (if g_sockets g then false else g_iopen g)
-      (if g_sockets g then with_sig (g_ci g) 0 else g_ci g) (g_co g) IExited (g_il g) (g_gen g).
+      (if g_sockets g then with_sig (g_ci g) 0 else g_ci g) (g_co g) IExited (g_il g) (g_gen g) (g_usr g).
+
+(* the operations on the owner's user-registered socket: new state and result *)
+Definition user_step (u : uop) (g : gst) : gst * res :=
+  match u with
+  | UReg => if g_sockets g then (set_usr (mkU true (u_bytes (g_usr g)) false) g, ROk) else (g, RBadObject)
+  | UUnreg => if g_sockets g
+              then (if u_reg (g_usr g) then (set_usr (mkU false (u_bytes (g_usr g)) false) g, ROk) else (g, RNotFound))
+              else (g, RBadObject)
+  | UPing => (set_usr (mkU (u_reg (g_usr g)) (S (u_bytes (g_usr g))) (u_flag (g_usr g))) g, RVoid)
+  | UEat => (set_usr (mkU (u_reg (g_usr g)) 0 (u_flag (g_usr g))) g, RVoid)
+  end.
+
+Lemma wakeable_wc : forall g x, g_sockets g = false -> wakeable g x = readable g x.
+Proof. intros g x H. unfold wakeable, uready. rewrite H. destruct x; simpl; apply orb_false_r. Qed.
+
+Lemma user_step_frame : forall u g g' r, user_step u g = (g', r) -> exists x, g' = set_usr x g.
+Proof.
+  intros u g g' r H. destruct u; simpl in H;
+    repeat match type of H with context [if ?b then _ else _] => destruct b end; inv H; eauto;
+    exists (g_usr g'); destruct g'; reflexivity.
+Qed.
 
 Inductive Step : choice -> gst -> local -> gst -> local -> list ev -> Prop :=
 | S_SendCS : forall g k x m,
@@ -193,9 +225,9 @@ Inductive Step : choice -> gst -> local -> gst -> local -> list ev -> Prop :=
     Step CRun g (mkL (PRecvNone x w) k) g (mkL p k') ([] ++ e')
 | S_Park_wake_sock : forall g k x w,
     readable g x = true -> g_sockets g = true ->
-    Step CRun g (mkL (PRecvPark x w) k) g (mkL (PRecvAbsorb x WPoll) k) [EWoken]
+    Step CRun g (mkL (PRecvPark x w) k) (park_flags x g) (mkL (PRecvAbsorb x WPoll) k) [EWoken]
 | S_Park_wake_wc : forall g k x w,
-    readable g x = true -> g_sockets g = false ->
+    wakeable g x = true -> g_sockets g = false ->
     Step CRun g (mkL (PRecvPark x w) k) (set_ch x (with_wc (ch g x) 0%N) g) (mkL (PRecvAbsorb x w) k) [EWoken]
 | S_Park_timeout : forall g k x p k' e',
     ret react (g_evd g) RTimedOut k = (p, k', e') ->
@@ -254,7 +286,14 @@ Inductive Step : choice -> gst -> local -> gst -> local -> list ev -> Prop :=
 | S_IEvWait : forall g k,
     readable g CI = true -> Step CRun g (mkL PIEvWait k) g (mkL PIEvPoll k) [EWoken]
 | S_IEvPoll : forall g k, Step CRun g (mkL PIEvPoll k) g (mkL (PRecvAbsorb CI WPoll) (KLoop :: k)) []
-| S_IExit : forall g k, Step CRun g (mkL PIExit k) (exited g) (mkL PIDone k) [EEnd].
+| S_IExit : forall g k, Step CRun g (mkL PIExit k) (exited g) (mkL PIDone k) [EEnd]
+| S_Park_wake_io : forall g k x w p k' e',
+    wakeable g x = true -> readable g x = false -> g_sockets g = true ->
+    ret react (g_evd (park_flags x g)) RIoReady k = (p, k', e') ->
+    Step CRun g (mkL (PRecvPark x w) k) (park_flags x g) (mkL p k') ([EWoken] ++ e')
+| S_User : forall g k u g' r p k' e',
+    user_step u g = (g', r) -> ret react (g_evd g') r k = (p, k', e') ->
+    Step CRun g (mkL (PUser u) k) g' (mkL p k') ([] ++ e').
 
 Lemma step_spec : forall c g l g' l' ev, step c g l = Some (g', l', ev) -> Step c g l g' l' ev.
 Proof.
@@ -267,7 +306,9 @@ Proof.
     | context [match ?x with _ => _ end] => lazymatch x with early => fail | _ => destruct x eqn:? end
     | context [if ?x then _ else _] => lazymatch x with early => fail | _ => destruct x eqn:? end
     end; try discriminate; inv H;
-    try (econstructor; eauto; congruence).
+    try (econstructor; eauto; congruence);
+    try (eapply S_User; [unfold user_step; repeat match goal with Hb : _ = true |- _ => rewrite Hb | Hb : _ = false |- _ => rewrite Hb end; reflexivity
+                        | simpl; eassumption]).
   - apply S_IStartupCS_empty. destruct (c_q (g_co g')); [reflexivity | discriminate].
   - eapply S_IStartupCS_signal; eauto. destruct (c_q (g_co g)); [discriminate | congruence].
 Qed.
@@ -289,6 +330,7 @@ Proof.
     repeat match goal with
     | x : chanid |- _ => destruct x
     | x : msg |- _ => destruct x
+    | x : uop |- _ => destruct x
     end; try contradiction;
     destr_k k; kill_ret; simpl; auto;
     try (destruct early; simpl; auto).
@@ -318,7 +360,9 @@ Lemma Step_const : forall c g l g' l' ev, Step c g l g' l' ev -> g_sockets g' = 
 Proof.
   intros c g l g' l' ev HS. inversion HS; subst; clear HS; auto;
     try (match goal with Hs : signal _ _ _ = _ |- _ => apply signal_frame in Hs; tauto end);
-    try (destruct x; simpl; auto; fail).
+    try (destruct x; simpl; auto; fail);
+    try (usr_norm; auto; fail);
+    try (match goal with Hu : user_step _ _ = _ |- _ => apply user_step_frame in Hu; destruct Hu as [? ->]; simpl; auto end).
   - pose proof (absorb_frame absorb_n x g). simpl in *. tauto.
   - unfold spawned; simpl. pose proof (alloc_frame g). simpl in *. tauto.
   - unfold joined; simpl. pose proof (close_frame g). simpl in *. tauto.
@@ -334,6 +378,15 @@ Definition wfg (g : gst) : Prop :=
 
 Lemma wfg_set_ch : forall c x g, wfg (set_ch c x g) <-> wfg g.
 Proof. intros [] x g; unfold wfg; simpl; tauto. Qed.
+
+Lemma wfg_set_usr : forall u g, wfg (set_usr u g) <-> wfg g.
+Proof. intros u g; unfold wfg; simpl; tauto. Qed.
+
+Lemma wfg_park_flags : forall x g, wfg g -> wfg (park_flags x g).
+Proof. intros x g W. unfold park_flags. destruct x; auto. destruct (u_reg (g_usr g)); auto. Qed.
+
+Lemma wfg_user_step : forall u g g' r, user_step u g = (g', r) -> wfg g -> wfg g'.
+Proof. intros u g g' r H W. apply user_step_frame in H. destruct H as [x ->]. apply wfg_set_usr. exact W. Qed.
 
 Lemma wfg_signal : forall nl c g g' e, signal nl c g = (g', e) -> wfg g -> wfg g'.
 Proof.
@@ -368,7 +421,9 @@ Proof.
   intros t c g l g' l' ev W Hok Hsp HS.
   inversion HS; subst; clear HS; auto;
     try (unfold upc_ok in Hok; simpl in Hok; contradiction);
-    try (eapply wfg_signal; eauto; fail).
+    try (eapply wfg_signal; eauto; fail);
+    try (apply wfg_park_flags; assumption);
+    try (eapply wfg_user_step; eauto; fail).
   - apply wfg_set_ch; exact W.
   - apply wfg_absorb; exact W.
   - apply wfg_set_ch; exact W.
@@ -406,7 +461,9 @@ Proof.
   intros c g l g' l' ev W Hl Hok HS.
   inversion HS; subst; clear HS; auto;
     try (unfold ipc_ok in Hok; simpl in Hok; contradiction);
-    try (eapply wfg_signal; eauto; fail).
+    try (eapply wfg_signal; eauto; fail);
+    try (apply wfg_park_flags; assumption);
+    try (eapply wfg_user_step; eauto; fail).
   - apply wfg_set_ch; exact W.
   - apply wfg_absorb; exact W.
   - apply wfg_set_ch; exact W.
@@ -422,7 +479,10 @@ Proof.
   intros c g l g' l' ev HS. inversion HS; subst; clear HS; simpl; eauto;
     try (right; right; right;
          try match goal with Hs : signal _ _ _ = _ |- _ => apply signal_frame in Hs end;
-         try match goal with x : chanid |- _ => destruct x end; simpl; tauto).
+         try match goal with Hu : user_step _ _ = _ |- _ => apply user_step_frame in Hu; destruct Hu as [? ->] end;
+         unfold park_flags;
+         try match goal with x : chanid |- _ => destruct x end;
+         try match goal with |- context [if u_reg ?u then _ else _] => destruct (u_reg u) end; simpl; tauto).
   - right; right; right. pose proof (absorb_frame absorb_n x g). simpl in *. tauto.
   - right; right; right. pose proof (alloc_frame g). simpl in *. tauto.
 Qed.
@@ -449,7 +509,7 @@ Proof.
     destruct (allowed t o) eqn:Ha; [|discriminate]. inv Hb.
     destruct W. constructor; simpl; auto.
     + intros x. unfold upd. destruct (Nat.eqb_spec x t); [subst x | auto].
-      unfold upc_ok; simpl. destruct o as [[] [?|] | | | | | ]; simpl in *; auto; apply Nat.eqb_eq; exact Ha.
+      unfold upc_ok; simpl. destruct o as [[] [?|] | | | | | | []]; simpl in *; auto; apply Nat.eqb_eq; exact Ha.
     + intros n. unfold upd. destruct (Nat.eqb_spec 0 t); [subst t | eauto].
       simpl. destruct o; simpl; try discriminate.
   - (* a user thread's step *)
@@ -481,7 +541,7 @@ Proof.
           try (destruct early; discriminate);
           try (apply (Hsp false); reflexivity); try assumption;
           unfold upc_ok in Hu; simpl in Hu;
-          repeat match goal with x : chanid |- _ => destruct x | x : msg |- _ => destruct x end;
+          repeat match goal with x : chanid |- _ => destruct x | x : msg |- _ => destruct x | x : uop |- _ => destruct x end;
           try contradiction; destr_k k; kill_ret; discriminate.
       * intros Hn. destruct (Step_running _ _ _ _ _ _ Hst) as [[n' Hn'] | [Hj | [Hx | (R1 & R2 & R3 & R4)]]]; simpl in *.
         -- exfalso. apply Ht. subst p. unfold upc_ok in Hu. simpl in Hu. destruct k; [auto | contradiction].
@@ -537,6 +597,9 @@ Lemma Step_hist : forall c g l g' l' ev, Step c g l g' l' ev -> (fifo g -> fifo 
 Proof.
   intros c g l g' l' ev HS. inversion HS; subst; clear HS;
     try (apply hist_same; intros c'; auto; fail);
+    try (apply hist_same; intros c'; unfold park_flags; repeat match goal with y : chanid |- _ => destruct y end; try destruct (u_reg (g_usr g)); simpl; auto; fail);
+    try (apply hist_same; intros c'; match goal with Hu : user_step _ _ = _ |- _ => apply user_step_frame in Hu; destruct Hu as [? ->] end;
+         destruct c'; simpl; auto; fail);
     try (apply hist_same; intros c';
          match goal with Hs : signal _ _ _ = _ |- _ => apply signal_frame in Hs; destruct Hs as (_&_&_&_&_&_&_&_&Hs&_); apply Hs end).
   - (* enqueue *)
@@ -557,9 +620,6 @@ Proof.
     + intros c'. destruct (chan_eqb_spec x c') as [->|Hn].
       * rewrite ch_set_same. simpl. exists [], [m]. rewrite app_nil_r. auto.
       * rewrite ch_set_other by exact Hn. exists [], []. rewrite !app_nil_r. auto.
-  - apply hist_same. intros c'. destruct (chan_eqb_spec x c') as [->|Hn].
-    + rewrite ch_set_same. simpl. auto.
-    + rewrite ch_set_other by exact Hn. auto.
   - apply hist_same. intros c'. pose proof (alloc_frame g) as F. simpl in F.
     destruct F as (_&_&_&_&_&_&F). destruct (F c') as (F1 & F2 & F3 & _).
     unfold spawned. destruct c'; simpl in *; auto.
